@@ -91,6 +91,11 @@ def ops(keys=None, extra=True):
     out.append(("update_kw", [{"b": {}, "LAYERS": "x"}]))
     out.append(("update_both", [{"a": 1}, {"B": 2}]))
     out.append(("update_none", []))
+    # the positional argument is itself a Mapfile dict (a loaded block used as a template), alone and together with keywords
+    out.append(("update_ci", [[["B", "x"], ["zz", [1]]], {}]))
+    out.append(("update_ci", [[["A", 1]], {"B": 2, "LAYERS": "x"}]))
+    out.append(("update_ci", [[], {"Zz": 7}]))
+    out.append(("update_od", [[["A", 1], ["a", 2]], {"b": 3}]))
     return out
 
 
@@ -124,6 +129,13 @@ def apply_real(d, name, args):
         return d.update(args[0], **args[1])
     if name == "update_none":
         return d.update()
+    if name == "update_ci":
+        src = type(d)(type(d)) if args[1] and len(args[0]) % 2 == 0 else type(d)()
+        for k, v in args[0]:
+            src[k] = v
+        return d.update(src, **args[1])
+    if name == "update_od":
+        return d.update(OrderedDict(tuple(p) for p in args[0]), **args[1])
     raise AssertionError(name)
 
 
@@ -153,6 +165,8 @@ def apply_model(m, name, args):
         return m.update(args[0], **args[1])
     if name == "update_none":
         return m.update()
+    if name in ("update_ci", "update_od"):
+        return m.update([tuple(p) for p in args[0]], **args[1])
     raise AssertionError(name)
 
 
